@@ -94,7 +94,7 @@ def build_cases(ctx, n_part, n_random, mc=True, alu_cap_quick=1100):
     # a seeded share of the memory partition (PVM_MemPart; whole in C05): final memory is part of C01's statement
     memp = vf.gen_cases(ctx, "PVM_MemGen", {"Tier": '"%s"' % ctx.tier}, timeout=1500, heap="8g", tag="mem")
     mem = [json.loads(l) for l in vf.read_lines(memp)]
-    keep = 150 if quick else 1500
+    keep = 300 if quick else 1500
     mem = [c for c in mem if rng.n(len(mem)) < keep]
     for i, c in enumerate(mem):
         c["id"] = "mem%d" % i
@@ -146,12 +146,12 @@ def run(ctx, mode="c01"):
         cases = replay_cases(ctx.replay)
     else:
         full = os.environ.get("VERIF_FULL") == "1"
-        cases = build_cases(ctx, 1300 if ctx.quick else (0 if full else 25000), 220 if ctx.quick else 3000)
+        cases = build_cases(ctx, 3000 if ctx.quick else (0 if full else 25000), 500 if ctx.quick else 3000, alu_cap_quick=0)
     lines = execute(ctx, cases)
     ctx.cov["evaluations"] = len(lines)
     ctx.cov["distinct_nontrivial"] = nontrivial(lines)
     ctx.cov["rule"] = ("cases = TLC-enumerated decode partition (opcode x operand-format fields x skip x position; quick: one opcode per operand format + 3 seed-picked "
-                       "opcodes sampled to 1300, thorough: all 151848 sampled to 25000, VERIF_FULL=1: all) with seeded start states + seeded random programs (clean and edgy "
+                       "opcodes sampled to 3000, thorough: all 151848 sampled to 25000, VERIF_FULL=1: all) with seeded start states + seeded random programs (clean and edgy "
                        "encodings, up to 6 host-call segments); non-trivial = distinct (program, start pc, gas, registers) segments that execute at least one instruction")
     ctx.cov["samples"] = [json.loads(x) for x in lines[:1] + lines[-1:]]
     vf.validate_trace(ctx, "PVM_Trace", lines, constants={"Mode": '"%s"' % mode}, shard=220 if ctx.quick else 900, par=14,
